@@ -34,6 +34,7 @@ pub struct KeyCode { pub verif_code: u16 }
 #[derive(Clone, Copy, PartialEq, Eq, Structural)]
 pub struct NormalKeyFlags(pub u8);
 #[verifier::reject_recursive_types(T)]
+#[verifier::external_body]
 pub struct SequenceEvent<'a, T> { p: core::marker::PhantomData<&'a T> }
 
 //@ item keyberon/src/layout.rs type KCoord
@@ -136,6 +137,7 @@ impl History {
         ensures final(self).verif_pushed@ == old(self).verif_pushed@.push(event),
     { unimplemented!() }
 }
+#[verifier::external_body]
 pub struct OneShotCoords { pub verif_opaque: u8 }
 pub struct OneShotState { pub verif_presses: Ghost<Seq<OneShotHandlePressKey>> }
 impl OneShotState {
